@@ -5,5 +5,5 @@ TIER=${1:-quick}; shift
 IDS=${@:-$(ls seeded | grep '^C')}
 for id in $IDS; do
   echo "#### $id"
-  tools/seedtest.sh seeded/$id/patch.diff $TIER $id
+  tools/seedtest.sh seeded/$id/patch.diff $TIER ${id:0:3}
 done
